@@ -561,3 +561,11 @@ Proof.
     + destruct (held_blocks_others t' LWrite g h HI' Hwr Hne) as [[t2 [H2 _]] _]. exists t2. exact H2.
     + destruct (held_blocks_others t' LCkpt g h HI' Hck Hne) as [[t2 [H2 _]] _]. exists t2. exact H2.
 Qed.
+
+(* a grant whose position the replica does not reach is no grant: the replica holds nothing afterwards and cannot write *)
+Lemma grant_not_reached_forgets s id s' post d : step s (EGrant id true) = (s', c_refused) ->
+  grant s id <> (fst (grant s id), None) -> rlock s' = None /\ step s' (ECommit post d) = (s', c_refused).
+Proof.
+  cbn [step]. destruct (grant s id) as [s1 r] eqn:Eg. destruct r as [l|]; [|intros _ H; exfalso; apply H; reflexivity].
+  cbn [negb]. destruct (_ && _); intros H _; inversion H; subst; cbn. split; reflexivity.
+Qed.
